@@ -68,7 +68,9 @@ def check_units(c, tc, scratch, units, backends=("cannon", "boots"), flags=None,
 def main(tier):
     c = vcommon.Check("C01", tier, "exploration")
     bindir = vcommon.build_plain(need_boots=True)
-    tc = core.Toolchain(bindir)
+    fastdir = vcommon.build_fast(need_boots=True)
+    tc = core.Toolchain(bindir, fastdir)
+    tc_debug = core.Toolchain(bindir)
     scratch = vcommon.scratch_dir("c01")
     try:
         fams = families(tier)
@@ -81,7 +83,8 @@ def main(tier):
         # the copying collector starts 4x faster than the default one; collector independence is C03's subject
         evals = check_units(c, tc, scratch, units, gc="copy")
         if tier == "thorough":
-            evals += check_units(c, tc, scratch, units[: max(1, len(units) // 8)], gc=None)
+            # the debug-assertion compiler (graph verifier of the optimizing generator on) and the default collector
+            evals += check_units(c, tc_debug, scratch, units[:: 6], gc=None)
         traps = sum(1 for x in allcases if x.expect_end != 0)
         samples = [{"case": x.name, "body": x.body, "expected": [x.expect_out, x.expect_end]} for x in
                    (allcases[0], allcases[len(allcases) // 3], allcases[len(allcases) // 2], allcases[-1])]
